@@ -182,9 +182,9 @@ def assignTaxa (n0 m : Nat) (p1 p2 : List Nat) : Option (List (Nat × Nat)) :=
 
 def lookupTaxon (assoc : List (Nat × Nat)) (j : Nat) : Nat := (assoc.lookup j).getD 0
 
-/-- `L<taxon>:<len>` / `(<len> child child)`; leaves numbered in tree order from `j` -/
+/-- `L<taxon>:<len>` (extant tip) / `X<taxon>:<len>` (retained extinct tip) / `(<len> child child)`; leaves numbered in tree order from `j` -/
 def renderBT (assoc : List (Nat × Nat)) : BT → Nat → String × Nat
-  | tip _ l _, j => ("L" ++ toString (lookupTaxon assoc j) ++ ":" ++ toString l, j + 1)
+  | tip _ l a, j => ((if a then "L" else "X") ++ toString (lookupTaxon assoc j) ++ ":" ++ toString l, j + 1)
   | un _ l c, j => let (s, j) := renderBT assoc c j; ("(" ++ toString l ++ " " ++ s ++ ")", j)
   | bin _ l x y, j =>
     let (s1, j) := renderBT assoc x j
@@ -199,11 +199,45 @@ structure Tip where
   dr : Int
 deriving Repr
 
+namespace BT
+/-- depths of the extinct tips (same convention as `aliveDepths`) -/
+def deadDepths : BT → List Int
+  | tip _ l a => if a then [] else [l]
+  | un _ l c => (deadDepths c).map (· + l)
+  | bin _ l x y => (deadDepths x ++ deadDepths y).map (· + l)
+
+/-- some tip flagged alive carries id `i` -/
+def hasAlive (i : Nat) : BT → Bool
+  | tip j _ a => a && j == i
+  | un _ _ c => hasAlive i c
+  | bin _ _ x y => hasAlive i x || hasAlive i y
+
+def maxId : BT → Nat
+  | tip i _ _ => i
+  | un i _ c => Nat.max i (maxId c)
+  | bin i _ x y => Nat.max i (Nat.max (maxId x) (maxId y))
+
+/-- ids of the extant tips in `for nd in tree` (pre-order) order -/
+def aliveIds : BT → List Nat
+  | tip i _ a => if a then [i] else []
+  | un _ _ c => aliveIds c
+  | bin _ _ x y => aliveIds x ++ aliveIds y
+
+def deadIds : BT → List Nat
+  | tip i _ a => if a then [] else [i]
+  | un _ _ c => deadIds c
+  | bin _ _ x y => deadIds x ++ deadIds y
+end BT
+
 structure BDParams where
   nTips : Option Nat      -- num_extant_tips
   maxTime : Option Int    -- max_time
   b : Int
   d : Int
+  nExtinct : Option Nat := none   -- num_extinct_tips
+  nTotal : Option Nat := none     -- num_total_tips
+  retain : Bool := false          -- is_retain_extinct_tips
+  start : BT := .tip 0 0 true     -- the `tree=` argument (a tree to continue); default: a fresh tree, one seed node of length 0.0
 
 structure BDState where
   tree : BT
@@ -216,13 +250,21 @@ inductive Step (σ : Type) where
   | done (s : σ) (rest : List Draw)
   | cont (s : σ) (rest : List Draw)
 
+/-- the initial state: the leaves of the start tree not flagged extinct are the extant tips (in `for nd in tree` order), every
+one with the given rates; the flagged ones the extinct tips -/
 def bdInit (P : BDParams) : BDState :=
-  { tree := .tip 0 0 true, extant := [⟨0, P.b, P.d⟩], extinct := [], total := 0, next := 1 }
+  { tree := P.start, extant := P.start.aliveIds.map (fun i => ⟨i, P.b, P.d⟩), extinct := P.start.deadIds, total := 0,
+    next := P.start.maxId + 1 }
 
 /-- the termination tests at the head of the loop -/
 def bdStop (P : BDParams) (nExtant : Nat) (total : Int) : Bool :=
   (match P.nTips with | some n => decide (nExtant ≥ n) | none => false) ||
   (match P.maxTime with | some t => decide (total ≥ t) | none => false)
+
+/-- the two further termination tests: `len(extinct_tips) >= num_extinct_tips`, `len(extant_tips) + len(extinct_tips) >= num_total_tips` -/
+def xStop (P : BDParams) (nExtant nExtinct : Nat) : Bool :=
+  (match P.nExtinct with | some k => decide (nExtinct ≥ k) | none => false) ||
+  (match P.nTotal with | some k => decide (nExtant + nExtinct ≥ k) | none => false)
 
 /-- `if max_time is None or total_time <= max_time` -/
 def eventAllowed (P : BDParams) (total : Int) : Bool :=
@@ -238,10 +280,11 @@ def removeTip (i : Nat) : List Tip → List Tip
   | [] => []
   | t :: ts => if t.id == i then ts else t :: removeTip i ts
 
-/-- the restart after total extinction: initial tip set again, children cleared, clock zeroed; the seed keeps
-whatever length its edge has accumulated -/
+/-- the restart after total extinction: the initial tip sets again, their children cleared, the clock zeroed and — as the
+property demands (equidistant extant tips) and as `fast_birth_death_tree` does — the initial tips' edge lengths restored, i.e.
+the start tree again.  (The unrepaired `birth_death_tree` leaves the lengths the failed run had given them.) -/
 def bdRestart (P : BDParams) (s : BDState) : BDState :=
-  { tree := .tip 0 s.tree.len true, extant := [⟨0, P.b, P.d⟩], extinct := [], total := 0, next := s.next }
+  { bdInit P with next := s.next }
 
 /-- birth: four `gauss` draws give the daughters' rates; `extant_tips.append(c1); extant_tips.append(c2)` -/
 def bdBirth (s : BDState) (nd : Tip) (rest : List Tip) (ds : List Draw) : Except Err (Step BDState) :=
@@ -281,7 +324,7 @@ def bdEvent (P : BDParams) (s : BDState) (ds : List Draw) : Except Err (Step BDS
 
 /-- one pass through the `while True` body -/
 def bdIter (P : BDParams) (s : BDState) (ds : List Draw) : Except Err (Step BDState) :=
-  if bdStop P s.extant.length s.total then .ok (.done s ds) else
+  if bdStop P s.extant.length s.total || xStop P s.extant.length s.extinct.length then .ok (.done s ds) else
   match ds with
   | [] => .error .draws
   | .w w :: ds =>
@@ -315,10 +358,268 @@ def finish (n0 : Nat) (t : BT) (ds : List Draw) : Except Err SimResult :=
       | none => .error .kind
     | _ => .error (if ds.length < 2 then .draws else .kind)
 
+/-- `is_retain_extinct_tips=True`: nothing is pruned; `suppress_unifurcations` still runs; every leaf, extinct ones
+included, takes part in the shuffle and receives a taxon (`is_assign_extinct_taxa` defaults to True) -/
+def finishRetain (n0 : Nat) (t : BT) (ds : List Draw) : Except Err SimResult :=
+  let t2 := suppress t
+  match ds with
+  | [.perm p1, .perm p2] =>
+    match assignTaxa n0 t2.nLeaves p1 p2 with
+    | some a => .ok ⟨t2, a⟩
+    | none => .error .kind
+  | _ => .error (if ds.length < 2 then .draws else .kind)
+
 def bdRun (P : BDParams) (n0 : Nat) (ds : List Draw) : Except Err SimResult :=
   match bdLoop P (ds.length + 1) (bdInit P) ds with
   | .error e => .error e
-  | .ok (s, rest) => finish n0 s.tree rest
+  | .ok (s, rest) => if P.retain then finishRetain n0 s.tree rest else finish n0 s.tree rest
+
+/-! ## `birth_death_tree(..., num_extant_tips=N, gsa_ntax=G)`: the General Sampling Approach
+
+The process runs until `G ≥ N` tips are extant (or dies out); every waiting time that starts with exactly `N` extant tips
+is remembered as a *time slice* `(waiting_time, [(tip, its edge length at the start)])`; one slice is then selected and the
+tree is cut back to it: every tip of the slice loses its descendants and gets `length = start length + waiting_time`. -/
+
+namespace BT
+/-- `(id, edge length)` of the alive tips, tree order -/
+def aliveTips : BT → List (Nat × Int)
+  | tip i l a => if a then [(i, l)] else []
+  | un _ _ c => aliveTips c
+  | bin _ _ x y => aliveTips x ++ aliveTips y
+
+def rootId : BT → Nat
+  | tip i _ _ => i
+  | un i _ _ => i
+  | bin i _ _ _ => i
+
+/-- the first node (pre-order) with id `i` loses its descendants and becomes an extant tip of length `l` -/
+def cutBack (i : Nat) (l : Int) : BT → Option BT
+  | tip j _ _ => if j == i then some (tip j l true) else none
+  | un j l0 c => if j == i then some (tip j l true) else (cutBack i l c).map (un j l0)
+  | bin j l0 x y =>
+    if j == i then some (tip j l true) else
+    match cutBack i l x with
+    | some x' => some (bin j l0 x' y)
+    | none => (cutBack i l y).map (bin j l0 x)
+
+/-- the subtree rooted at the first node with id `i` -/
+def subtreeAt (i : Nat) : BT → Option BT
+  | tip j l a => if j == i then some (tip j l a) else none
+  | un j l c => if j == i then some (un j l c) else subtreeAt i c
+  | bin j l x y =>
+    if j == i then some (bin j l x y) else
+    match subtreeAt i x with
+    | some r => some r
+    | none => subtreeAt i y
+
+def isTip : BT → Bool
+  | tip _ _ _ => true
+  | _ => false
+end BT
+
+structure GState where
+  st : BDState
+  slices : List (Int × List (Nat × Int))
+
+/-- death under GSA: total extinction ends the run once a slice exists, otherwise the process restarts -/
+def gsaDeath (P : BDParams) (g : GState) (nd : Tip) (rest : List Tip) (ds : List Draw) : Except Err (Step GState) :=
+  if rest.isEmpty then
+    if !g.slices.isEmpty then .ok (.done { g with st := { g.st with extant := [] } } ds)
+    else .ok (.cont { g with st := bdRestart P g.st } ds)
+  else
+    match g.st.tree.killFirst nd.id with
+    | none => .error .state
+    | some t => .ok (.cont { g with st := { g.st with tree := t, extant := rest, extinct := g.st.extinct ++ [nd.id] } } ds)
+
+def gsaEvent (P : BDParams) (g : GState) (ds : List Draw) : Except Err (Step GState) :=
+  match ds with
+  | [] => .error .draws
+  | .u p q :: ds =>
+    if q ≤ 0 || p < 0 || p ≥ q then .error .kind else
+    match wic p q (rates g.st.extant) with
+    | none => .error .state
+    | some k =>
+      match g.st.extant[k / 2]? with
+      | none => .error .state
+      | some nd =>
+        if k % 2 == 0 then
+          match bdBirth g.st nd (removeTip nd.id g.st.extant) ds with
+          | .error e => .error e
+          | .ok (.cont s ds) => .ok (.cont { g with st := s } ds)
+          | .ok (.done s ds) => .ok (.done { g with st := s } ds)
+        else gsaDeath P g nd (removeTip nd.id g.st.extant) ds
+  | _ => .error .kind
+
+/-- one pass of the loop with `gsa_ntax = G`, `num_extant_tips = N` -/
+def gsaIter (P : BDParams) (N G : Nat) (g : GState) (ds : List Draw) : Except Err (Step GState) :=
+  if g.st.extant.length ≥ G then .ok (.done g ds) else
+  match ds with
+  | [] => .error .draws
+  | .w w :: ds =>
+    if w < 0 then .error .kind else
+    let slices := if g.st.extant.length == N then g.slices ++ [(w, g.st.tree.aliveTips)] else g.slices
+    let g1 : GState := { st := { g.st with tree := g.st.tree.addAlive w, total := g.st.total + w }, slices := slices }
+    if eventAllowed P g1.st.total then gsaEvent P g1 ds else .ok (.cont g1 ds)
+  | _ => .error .kind
+
+def gsaLoop (P : BDParams) (N G : Nat) : Nat → GState → List Draw → Except Err (GState × List Draw)
+  | 0, _, _ => .error .fuel
+  | f + 1, g, ds =>
+    match gsaIter P N G g ds with
+    | .error e => .error e
+    | .ok (.done g' ds') => .ok (g', ds')
+    | .ok (.cont g' ds') => gsaLoop P N G f g' ds'
+
+/-- `r = rng.random() * total_duration; for i in slices: r -= i[0]; if r < 0.0: selected_slice = i` — there is no
+`break`, so the *last* slice for which the running remainder is negative wins.  Everything is scaled by `q > 0`. -/
+def selectSlice (q : Int) : Int → List (Int × List (Nat × Int)) → Option (Int × List (Nat × Int)) → Option (Int × List (Nat × Int))
+  | _, [], sel => sel
+  | r, sl :: rest, sel =>
+    let r' := r - sl.1 * q
+    selectSlice q r' rest (if r' < 0 then some sl else sel)
+
+/-- the code's pruning loop raises `TypeError` ("Node has no parent") when a detached child clade of a slice tip has gone
+entirely extinct: its extinct tips are still listed in `extinct_tips` and the climb reaches the detached, parentless top -/
+def gsaCrashAt (t : BT) (i : Nat) : Bool :=
+  match t.subtreeAt i with
+  | some (.bin _ _ x y) => (!x.isTip && x.aliveCount == 0) || (!y.isTip && y.aliveCount == 0)
+  | _ => false
+
+def cutBackAll (w : Int) : List (Nat × Int) → BT → Option BT
+  | [], t => some t
+  | (i, l) :: rest, t =>
+    match t.cutBack i (l + w) with
+    | none => none
+    | some t' => cutBackAll w rest t'
+
+/-- `none` = the code raises (the defect above); otherwise the tree cut back to the selected slice, then the common tail -/
+def gsaRun (P : BDParams) (N G n0 : Nat) (ds : List Draw) : Except Err (Option SimResult) :=
+  if G < N then .error .arg else
+  match gsaLoop P N G (ds.length + 1) { st := bdInit P, slices := [] } ds with
+  | .error e => .error e
+  | .ok (g, rest) =>
+    match rest with
+    | .u p q :: rest =>
+      if q ≤ 0 || p < 0 || p ≥ q then .error .kind else
+      let total := (g.slices.map (·.1)).sum
+      match selectSlice q (p * total) g.slices none with
+      | none => .error .state
+      | some (w, snap) =>
+        if snap.any (fun x => gsaCrashAt g.st.tree x.1) then .ok none else
+        match cutBackAll w snap g.st.tree with
+        | none => .error .state
+        | some t =>
+          match finish n0 t rest with
+          | .error e => .error e
+          | .ok r => .ok (some r)
+    | [] => .error .draws
+    | _ => .error .kind
+
+/-! ## `discrete_birth_death_tree` (generation-wise; constant rates, i.e. `birth_rate_sd = death_rate_sd = 0`)
+
+Every generation visits the leaves present at its start in tree order: the leaf's edge grows by one generation, then a
+uniform draw `u` decides: `u < birth` two zero-length daughters; `birth < u < birth + death` the lineage is pruned
+(`prune_subtree`, which suppresses the unary parent: the sibling absorbs the parent's length) unless it is the only node
+left (the seed): then `TreeSimTotalExtinctionException`, or with `repeat_until_success` only the generation counter is reset.
+Because every operation is local to a leaf, the pass is a structural recursion; `outside` says whether any node exists
+outside the subtree being processed (a leaf is the seed iff it is the last leaf and everything before it has died). -/
+
+structure DParams where
+  b : Int            -- birth probability per generation, in units 1/rs
+  d : Int
+  rs : Int           -- rate denominator
+  ntax : Option Nat
+  maxGens : Option Nat
+  repeatOK : Bool    -- repeat_until_success
+
+inductive DOut where
+  | tree (t : Option BT) (reset : Bool)     -- what became of the subtree; was the generation counter reset
+  | extinct                                 -- TreeSimTotalExtinctionException
+
+/-- one generation over a subtree -/
+def genPass (P : DParams) (outside : Bool) : BT → Nat → List Draw → Except Err (DOut × Nat × List Draw)
+  | .tip i l a, next, ds =>
+    match ds with
+    | [] => .error .draws
+    | .u p q :: ds =>
+      if q ≤ 0 || p < 0 || p ≥ q then .error .kind else
+      if p * P.rs < P.b * q then
+        match ds with
+        | .g 0 :: .g 0 :: .g 0 :: .g 0 :: ds => .ok (.tree (some (.bin i (l + 1) (.tip next 0 true) (.tip (next + 1) 0 true))) false, next + 2, ds)
+        | _ => .error (if ds.length < 4 then .draws else .kind)
+      else if P.b * q < p * P.rs && p * P.rs < (P.b + P.d) * q then
+        if outside then .ok (.tree none false, next, ds)
+        else if P.repeatOK then .ok (.tree (some (.tip i (l + 1) a)) true, next, ds)
+        else .ok (.extinct, next, ds)
+      else .ok (.tree (some (.tip i (l + 1) a)) false, next, ds)
+    | _ => .error .kind
+  | .un i l c, next, ds =>
+    match genPass P outside c next ds with
+    | .error e => .error e
+    | .ok (.extinct, next, ds) => .ok (.extinct, next, ds)
+    | .ok (.tree none r, next, ds) => .ok (.tree none r, next, ds)
+    | .ok (.tree (some c') r, next, ds) => .ok (.tree (some (.un i l c')) r, next, ds)
+  | .bin i l x y, next, ds =>
+    match genPass P true x next ds with
+    | .error e => .error e
+    | .ok (.extinct, next, ds) => .ok (.extinct, next, ds)
+    | .ok (.tree x' r1, next, ds) =>
+      match genPass P (outside || x'.isSome) y next ds with
+      | .error e => .error e
+      | .ok (.extinct, next, ds) => .ok (.extinct, next, ds)
+      | .ok (.tree y' r2, next, ds) =>
+        .ok (.tree (match x', y' with
+                    | some a, some b => some (.bin i l a b)
+                    | some a, none => some (a.addLen l)
+                    | none, some b => some (b.addLen l)
+                    | none, none => none) (r1 || r2), next, ds)
+
+structure DState where
+  tree : BT
+  gens : Nat
+  next : Nat
+
+/-- `(ntax is None or len(leaf_nodes) < ntax) and (max_time is None or num_gens < max_time)` -/
+def dbdGo (P : DParams) (s : DState) : Bool :=
+  (match P.ntax with | some n => decide (s.tree.nLeaves < n) | none => true) &&
+  (match P.maxGens with | some m => decide (s.gens < m) | none => true)
+
+/-- the generation loop -/
+def dbdLoop (P : DParams) : Nat → DState → List Draw → Except Err (Option DState × List Draw)
+  | 0, _, _ => .error .fuel
+  | f + 1, s, ds =>
+    if dbdGo P s then
+      match genPass P false s.tree s.next ds with
+      | .error e => .error e
+      | .ok (.extinct, _, ds) => .ok (none, ds)
+      | .ok (.tree none _, _, _) => .error .state
+      | .ok (.tree (some t) r, next, ds) => dbdLoop P f { tree := t, gens := (if r then 0 else s.gens) + 1, next := next } ds
+    else .ok (some s, ds)
+
+/-- `while (max_time is None or num_gens < max_time): u = rng.uniform(0, 1); if u < birth + death: break; gens_to_add += 1` -/
+def addGens (P : DParams) (gens : Nat) : List Draw → Nat → Except Err (Nat × List Draw)
+  | [], acc => if (match P.maxGens with | some m => decide (gens < m) | none => true) then .error .draws else .ok (acc, [])
+  | dr :: ds, acc =>
+    if (match P.maxGens with | some m => decide (gens < m) | none => true) then
+      match dr with
+      | .u p q =>
+        if q ≤ 0 || p < 0 || p ≥ q then .error .kind else
+        if p * P.rs < (P.b + P.d) * q then .ok (acc, ds) else addGens P gens ds (acc + 1)
+      | _ => .error .kind
+    else .ok (acc, dr :: ds)
+
+/-- `none` = TreeSimTotalExtinctionException.  Taxa: with the default (empty) namespace leaf `j` gets the new taxon `T<j+1>` -/
+def dbdRun (P : DParams) (ds : List Draw) : Except Err (Option SimResult) :=
+  match dbdLoop P (ds.length + 1) { tree := .tip 0 0 true, gens := 0, next := 1 } ds with
+  | .error e => .error e
+  | .ok (none, _) => .ok none
+  | .ok (some s, rest) =>
+    match addGens P s.gens rest 0 with
+    | .error e => .error e
+    | .ok (k, []) =>
+      let t := s.tree.addAlive k
+      .ok (some ⟨t, (List.range t.nLeaves).map (fun j => (j, j))⟩)
+    | .ok (_, _ :: _) => .error .kind
 
 /-! ## `fast_birth_death_tree` (uniform rates; open tips store their creation time) -/
 
